@@ -178,6 +178,40 @@ fn check_stream(r: &Report, sub: &str, items: &[&Item], evals: &mut u64) -> bool
         r.fail(sub, None, case(), format!("re-encoding the tokens gave {}, expected {} ({})", hex(&out), hex(&want), if want == input { "the input itself" } else { "the same items with shortest heads" }));
         return false;
     }
+    // a tokenizer started in the middle of the input (after the first item was consumed through the decoder)
+    // yields exactly the tokens of the rest, through every way of constructing it
+    if items.len() >= 2 {
+        let mut first = Vec::new();
+        ref_tokens(items[0], &mut first);
+        let rest = &reft[first.len()..];
+        let same = |toks: &[Token]| toks.len() == rest.len() && toks.iter().map(to_ref).zip(rest).all(|(a, b)| tok_eq(&a, b));
+        *evals += 3;
+        let mut d = Decoder::new(&input);
+        if d.skip().is_err() {
+            r.fail(sub, None, case(), "skip() over the first item failed");
+            return false;
+        }
+        let mid = d.position();
+        let owned: Result<Vec<Token>, _> = minicbor::decode::Tokenizer::from(d.clone()).collect();
+        let borrowed: Result<Vec<Token>, _> = minicbor::decode::Tokenizer::from(&mut d).collect();
+        let after_borrowed = d.position();
+        let mut d2 = Decoder::new(&input);
+        d2.set_position(mid);
+        let via_tokens: Result<Vec<Token>, _> = d2.tokens().collect();
+        for (how, got) in [("Tokenizer::from(decoder)", &owned), ("Tokenizer::from(&mut decoder)", &borrowed), ("decoder.tokens()", &via_tokens)] {
+            match got {
+                Ok(t) if same(t) => {}
+                other => {
+                    r.fail(sub, None, case(), format!("{} after the first item was consumed (position {}) gave {:?}, the rest of the input has the tokens {:?}", how, mid, other.as_ref().map_err(|e| e.to_string()), rest));
+                    return false;
+                }
+            }
+        }
+        if after_borrowed != input.len() || d2.position() != input.len() {
+            r.fail(sub, None, case(), format!("after a borrowed tokenizer ran to the end the decoder is at {} / {}, the input has {} bytes", after_borrowed, d2.position(), input.len()));
+            return false;
+        }
+    }
     true
 }
 
